@@ -23,16 +23,17 @@ CLAIMED = {
             'selection coefficients, weights and inputs; exported graph == hard-selection graph on every input, exactly the arg-max branches and the fixed layers '
             'remain, outside layers untouched. Tracing and the fx graph mutators are assumed library contracts, cross-checked against the real torch.fx.', '0-bis C03'),
     'C04': ('other', 'What PIT layers show the cost function (discrete = exported sizes; open masks = original sizes for k = 1..16), params cost = parameter count of '
-            'the exported layer, and PIT._get_single_cost summing the right layers / invocations (shared, per-invocation, full_cost, dict specs).', '3 C04'),
+            'the exported layer, and PIT._get_single_cost summing the right layers / invocations (shared, per-invocation, full_cost, dict specs); on the enumerated whole models the '
+            'discrete cost == parameter count of the network export() returns, for every mask pattern (bounded in topology).', '3 C04, 0-bis.7'),
     'C05': ('other', 'Names and values MPS layers hand to cost functions, exact bit-cost under one-hot sampling (per-layer search), MPS._get_single_cost aggregation; '
-            'per-channel cost with 0-bit is a recorded known finding.', '3 C05'),
+            'per-channel cost with 0-bit is a recorded known finding; weight-size cost exact for the reported assignment on enumerated whole MPS models (real convert(), concrete weights).', '3 C05, 0-bis.7'),
     'C06': ('other', 'SuperNet cost == coefficient-weighted mix of branch costs per invocation (+ fixed layers), between min and max for every probability vector and '
             'for the real sampler on any raw coefficients, == selected branch under one-hot; == the metric of the exported network (params, ops) on three enumerated whole SuperNets '
             '(bounded in topology).', '3 C06, 0-bis.7'),
     'C07': ('other', 'BatchNorm fusing / folding algebra of remove_bn_inplace and fuse_bn_inplace for all bias/affine combinations, weight copy, open-mask forward '
             'identity, user objects untouched, mode restoration. Whole-model clauses (PIT / SuperNet / MPS constructors through the real convert()) on enumerated architectures only.', '3 C07, 0-bis.7'),
     'C08': ('proof', 'For ALL real architectural parameters every PIT layer keeps >= 1 feature, >= 1 tap, dilation >= 1; frozen maskers keep full size; exported sizes == '
-            'summary(); export is defined. Kernel sizes 1..9 (quick) / 1..16, dilations, strides, widths enumerated. Which groups are frozen (graph pass) is a hypothesis.', '3 C08'),
+            'summary(); export is defined. Kernel sizes 1..9 (quick) / 1..16, dilations, strides, widths enumerated. Which groups are frozen: the real graph pass on enumerated graphs and enumerated whole models (bounded in topology).', '3 C08, 0-bis.7'),
     'C09': ('other', 'Contracts of the four features calculators (sum over concat of searchable / fixed inputs, flatten multiplier and mask expansion, propagation), '
             'their discrete consistency, the frame of register(), the channel-axis test of is_features_concatenate; the BFS that wires them runs from source on six enumerated '
             'architectures (bounded in topology), not over all DAGs.', '3 C09, 0-bis.7'),
@@ -41,7 +42,8 @@ CLAIMED = {
     'C11': ('proof', 'Exact-effect post-conditions of train_nas_only/train_net_only/train_net_and_nas, the PIT train_features/rf/dilation and '
             'discrete_cost switches and every update_softmax_options level, from an arbitrary (symbolic) previous trainability / option state, '
             'plus preservation of the frozen-mask invariant and the partition of parameters: induction over all call sequences on one '
-            'representative wrapper per method (structure concrete, convert() under an assumed contract).', '3 C11'),
+            'representative wrapper per method (structure concrete, convert() under an assumed contract); frozen-by-construction groups and the parameter partition also through '
+            'the real convert() on enumerated whole models.', '3 C11, 0-bis.7'),
     'C12': ('other', 'Composed: cost functions defined / non-negative / monotone (C16 harnesses), PIT effective sizes monotone in mask magnitudes in both cost modes, open '
             'masks = original, pass-through backward bodies of all straight-through functions. Clauses about autograd gradients are not decided.', '3 C12'),
     'C13': ('proof', 'Element-wise post-conditions of the real quantizer kernels (range, integrality, fq = int x reported scale, monotone, error '
@@ -59,7 +61,8 @@ CLAIMED = {
             'search action; no missing / unexpected keys, identical outputs, cost, summary, exported network. One known finding (SuperNet temperature lives outside the state_dict). '
             'The closed-world clause over all attributes and actions is not decided.', '0-bis.7 C17'),
     'C18': ('other', 'Write frames of cost / get_cost / summary / cost_specification setter / export() of the three wrappers against the observables of the statement; '
-            'specification switch-and-back; export twice. The conversion inside export() is an assumed contract.', '3 C18'),
+            'specification switch-and-back; export twice. In the wrapper-level harnesses the conversion inside export() is an assumed contract; on the enumerated whole models the real '
+            'export() is an observer of outputs / cost / state in both modes.', '3 C18, 0-bis.7'),
     'C19': ('proof', 'Post-conditions of the real BaseRegularizer.__call__ and DUCCIO.__init__/__call__ over all real costs, targets, strengths '
             'and integer schedule positions (non-negativity, zero iff within target, monotone in each excess, schedule shape, definedness of '
             'derived strengths); number of metrics 1..3(4) enumerated, n_epochs enumerated for the non-linear schedule clauses.', '3 C19'),
